@@ -24,6 +24,24 @@ MUST_REACH = ["exhaustive_maps", "repeated_extension", "emptied_kind_then_extend
 def generate(rng, tier):
     w = {"copy": 1, "subset": 0.5, "delete": 2, "delete_touching": 2, "delete_all": 0.4, "pop": 0.5, "translate": 0.3, "extend": 4, "replicate": 0.2}
     spec = machine.gen_world(rng, nobj=(2, 4), nops=(0, 4), weights=w, max_atoms=6, empty_prob=0.06, overlay=0.5)
+    if rng.random() < 0.012:
+        # a host with more than 2048 bonds; a two-atom fragment re-defines one of the LAST bonds, listed the other way round
+        nat = rng.choice([1200, 2300, 2600])
+        host = machine.gen_long_chain(rng, spec["cfg"], nat, cell=spec["objects"][0].get("cell") if not spec["objects"][0].get("empty") else None)
+        i = rng.randint(int(0.8 * nat), nat - 2)
+        frag = machine.gen_fragment(rng, spec["cfg"], "fr", natoms=2, cell=host.get("cell"), idiom="explicit")
+        for k in refmodel.KINDS:
+            frag[refmodel.PLURAL[k]], frag["%s_types" % k], frag["%s_type_coeffs" % k] = [], [], []
+            frag["extra_%s_labels" % k], frag["extra_%s_fields" % k] = [], []
+        fwd = host["bonds"][i] == [i, i + 1]
+        frag["bonds"] = [[1, 0] if fwd else [0, 1]]       # the reverse of how the host lists it
+        frag["bond_types"] = [0]
+        frag["bond_type_coeffs"] = [machine.gen_coeff(rng, "frb")] if spec["cfg"]["tabled"]["bond"] else []
+        spec["objects"] = [host, frag]
+        spec["ops"] = [{"op": "extend", "obj": 0, "other": 1, "mode": "map", "map_frac": 1.0, "map_other": [0.0, 0.6],
+                        "map_self": [(i + 0.5) / nat, (i + 1.5) / nat], "repeat": 2, "reuse_map": False}]
+        spec["long_chain"] = True
+        return spec
     n = len(spec["objects"])
     for _ in range(rng.randint(1, 4)):
         spec["ops"].append({"op": "extend", "obj": rng.randrange(n), "other": rng.randrange(n), "mode": rng.choice(["default", "map", "map", "repeat"]),
